@@ -385,6 +385,12 @@ func (l Loader) build(c config.ServerConfig) []tq.SecretProvider {
 		}
 		userConfig := l.configProvider.New(users)
 		handler := handlerType.New(l.ctx, userConfig, provider.Handler.Options)
+		if handler == nil {
+			// a factory that cannot build its handler from the options given (eg span without a destination)
+			// must not end up as a provider that hands out a nil handler
+			l.Errorf(l.ctx, "handler type [%v] built no handler in scope [%v]. Skipping scope...", provider.Handler.Type, provider.Name)
+			continue
+		}
 		providerType := l.providerTypes[provider.Type]
 		if providerType == nil {
 			l.Errorf(l.ctx, "no provider assigned to provider type [%v] in scope [%v]; [%v] users not added", provider.Type, provider.Name, len(users))
